@@ -443,6 +443,9 @@ def run(ctx) -> None:
         stack = "file" if trial % 3 == 2 else "port"
         base = homes[(ctx.shard + trial * ctx.nshards) % len(homes)] if trial < len(homes) else None
         h = hist.build(rng, max_len=60 if ctx.quick else 160, base=base)
+        if stack == "file" and rng.random() < 0.4:  # a packet log that is not in timestamp order
+            h = hist.History(hist.disorder(rng, h.lines, h.meta), h.meta)
+            ctx.count("histories.disordered_log")
         eavesdrop = rng.random() < 0.3
         harness.reset_transport_globals()
 
